@@ -32,7 +32,7 @@ DT = 600
 BATHY = ["flat", "slope", "bumpy"]
 STRETCH = [dict(theta_s=1e-4, theta_b=0.0, hc=0.0, Vtransform=1), dict(theta_s=3.0, theta_b=0.4, hc=10.0, Vtransform=1), dict(theta_s=5.0, theta_b=0.8, hc=20.0, Vtransform=2)]
 MASKS = ["sea", "island", "channel", "coast", "diag"]
-STORAGE = ["f4", "f8", "i2"]
+STORAGE = ["f4", "f8", "i2", "i2-bare", "u-packed", "v-packed", "i2-offset"]  # bare: scale_factor only (no add_offset attribute); u-/v-packed: the other component is float; offset: velocity packed with a non-zero add_offset
 FIELDS = ["linear", "generic", "depthlin"]
 
 
@@ -49,10 +49,10 @@ def cases(tier, seed):
             combos = list(itertools.product(STORAGE, FIELDS))
         else:  # round-robin pairing of storage and field, shifted by the seed
             k += 1
-            combos = [(STORAGE[k % 3], FIELDS[(k // 3) % 3]), (STORAGE[(k + 1) % 3], FIELDS[(k // 3 + 1 + k % 2) % 3])]
+            combos = [(STORAGE[k % 7], FIELDS[(k // 3) % 3]), (STORAGE[(k + 3) % 7], FIELDS[(k // 3 + 1 + k % 2) % 3])]
         for sto, fi in combos:
             if fi == "depthlin" and ba != "flat":
-                fi = "generic" if sto != "f8" else "linear"
+                fi = "generic" if sto not in ("f8", "i2-offset") else "linear"
             out.append(dict(imax=imax, jmax=jmax, N=N, bathy=ba, stretch=st, mask=ma, storage=sto, field=fi))
     out.append(dict(mode="wide"))  # grid coordinates in the thousands: positions need all the digits of a double
     # drop duplicates created by the depthlin substitution
@@ -184,9 +184,14 @@ def run_case(case):
     d = util.scratch("c02")
     scale = dict(u=(2.0 ** -9, 0.0), v=(2.0 ** -10, 0.0), temp=(2.0 ** -6, 8.0), salt=(2.0 ** -5, 20.0))  # u and v packed differently on purpose
     # two files (the second one packed differently): the per-file scaling attributes must be honoured
-    f = w.write_file(d / "f_0.nc", [dict(t=S0, **fr)], storage=case["storage"], scale=scale)
     scale_b = dict(u=(2.0 ** -11, 0.0), v=(2.0 ** -12, 0.0), temp=(2.0 ** -7, 2.0), salt=(2.0 ** -6, 25.0))
-    w.write_file(d / "f_1.nc", [dict(t=S0 + 10 * DT, **fr)], storage=case["storage"], scale=scale_b)
+    sto = case["storage"]
+    if sto == "i2-offset":  # what packing tools write: an offset in the middle of the data range, for the velocity components as well
+        scale.update(u=(2.0 ** -9, 0.25), v=(2.0 ** -10, -0.125))
+        scale_b.update(u=(2.0 ** -11, -0.5), v=(2.0 ** -12, 0.0625))
+        sto = "i2"
+    f = w.write_file(d / "f_0.nc", [dict(t=S0, **fr)], storage=sto, scale=scale)
+    w.write_file(d / "f_1.nc", [dict(t=S0 + 10 * DT, **fr)], storage=sto, scale=scale_b)
     pattern = str(d / "f_*.nc")
     viols, n, nt = [], 0, 0
     outcomes = set()
